@@ -120,7 +120,24 @@ func randStruct(r *rand.Rand, o TypeOpts, depth int) (result reflect.Type) {
 		if r.IntN(2) == 0 {
 			ft = reflect.PointerTo(et)
 		}
-		fields = append(fields, reflect.StructField{Name: et.Name(), Type: ft, Anonymous: true})
+		ef := reflect.StructField{Name: et.Name(), Type: ft, Anonymous: true}
+		// a tag without a name keeps the field flattened; a name makes it an ordinary field; "-" drops it with all it promotes
+		if tg := Pick(r, []string{"", "", "", ",omitempty", ",inline", "emb", "emb,omitempty", "-", "Emb Base"}); tg != "" {
+			ef.Tag = reflect.StructTag(fmt.Sprintf(`json:"%s"`, tg))
+		}
+		fields = append(fields, ef)
+	} else if r.IntN(8) == 0 {
+		// an embedded NON-struct type: encoding/json treats it as an ordinary field named after the type
+		et := Pick(r, []reflect.Type{reflect.TypeFor[typecorpus.NamedInt](), reflect.TypeFor[typecorpus.NamedStr](), reflect.TypeFor[typecorpus.NamedInts](), reflect.TypeFor[typecorpus.NamedMap](), reflect.TypeFor[typecorpus.Key]()})
+		ft := et
+		if r.IntN(3) == 0 {
+			ft = reflect.PointerTo(et)
+		}
+		ef := reflect.StructField{Name: et.Name(), Type: ft, Anonymous: true}
+		if tg := Pick(r, []string{"", "", "ns", ",omitempty", "-"}); tg != "" {
+			ef.Tag = reflect.StructTag(fmt.Sprintf(`json:"%s"`, tg))
+		}
+		fields = append(fields, ef)
 	}
 	for i := 0; i < n; i++ {
 		name := fmt.Sprintf("F%d", i)
